@@ -140,7 +140,18 @@ func (p *proc) check(decls []VarDecl, pc, extra, wantVals []string, timeoutMs in
 		p.send("(assert " + p.tr(c) + ")\n")
 	}
 	p.send("(check-sat)\n")
+	tq := time.Now()
 	res := p.readLine()
+	if d := time.Since(tq); d > 2*time.Second && os.Getenv("VERIF_SLOWLOG") != "" {
+		last := ""
+		if len(extra) > 0 {
+			last = extra[len(extra)-1]
+			if len(last) > 200 {
+				last = last[:200]
+			}
+		}
+		fmt.Fprintf(os.Stderr, "SLOW %s abstract=%v %.1fs res=%s pc=%d extra=%d last=%s\n", p.kind, p.abstract, d.Seconds(), res, len(pc), len(extra), last)
+	}
 	for res == "" || res == "unsupported" || strings.HasPrefix(res, "(error") {
 		if strings.HasPrefix(res, "(error") {
 			p.Errors = append(p.Errors, res)
@@ -299,6 +310,22 @@ func (s *Solver) Check(decls []VarDecl, pc []string, extra []string, wantVals []
 	r, vals := s.precise().check(decls, pc, extra, wantVals, s.TimeoutMs)
 	s.PrecDur += time.Since(t1)
 	s.count(r)
+	return r, vals
+}
+
+// CheckPreciseTO asks the precise solver directly with a short timeout (model shaping: best effort).
+func (s *Solver) CheckPreciseTO(decls []VarDecl, pc []string, extra []string, wantVals []string, timeoutMs int) (string, map[string]string) {
+	t0 := time.Now()
+	defer func() { s.Dur += time.Since(t0); s.PrecDur += time.Since(t0) }()
+	s.Queries++
+	s.PrecQ++
+	p := s.precise()
+	r, vals := p.check(decls, pc, extra, wantVals, timeoutMs)
+	if strings.HasPrefix(r, "unknown") && time.Since(t0) > time.Duration(3*timeoutMs)*time.Millisecond {
+		// the solver ignored its timeout: restart it so that later queries are not starved
+		p.close()
+		s.prec = nil
+	}
 	return r, vals
 }
 
